@@ -118,11 +118,52 @@ static void print_nodes(const MPT_STRUCT(node) *n, const MPT_STRUCT(node) *paren
 		fputs(",\"v\":", drv_out);
 		j_runs_body((const uint8_t *) val, val ? strnlen(val, vlen) : 0);
 		fputs(",\"c\":", drv_out);
-		if (depth > 200) fputs("[]", drv_out);
+		if (depth > 60) fputs("[]", drv_out);           /* JSON readers limit nesting; see flat_nodes */
 		else print_nodes(n->children, n, depth + 1, bad);
 		fputc('}', drv_out);
 	}
 	fputc(']', drv_out);
+}
+/* complete forest as a flat pre-order list [{"d":depth,"n":..,"v":..}], no recursion;
+ * at most `limit` entries are written, the total is returned */
+static long flat_nodes(const MPT_STRUCT(node) *first, long limit)
+{
+	const MPT_STRUCT(node) **stack;
+	size_t cap = 1024, top = 0;
+	long count = 0;
+	int firstout = 1;
+	stack = (const MPT_STRUCT(node) **) malloc(cap * sizeof(*stack));
+	fputc('[', drv_out);
+	if (first) stack[top++] = first;
+	while (1) {
+		const MPT_STRUCT(node) *n;
+		size_t depth;
+		while (top && !stack[top - 1]) top--;
+		if (!top) break;
+		n = stack[top - 1];
+		depth = top - 1;
+		if (count < limit) {
+			const char *id = mpt_node_ident(n);
+			size_t vlen = 0;
+			const char *val = mpt_node_data(n, &vlen);
+			fprintf(drv_out, "%s{\"d\":%zu,\"n\":", firstout ? "" : ",", depth);
+			j_runs_body((const uint8_t *) id, id ? (size_t) n->ident._len - 1 : 0);
+			fputs(",\"v\":", drv_out);
+			j_runs_body((const uint8_t *) val, val ? strnlen(val, vlen) : 0);
+			fputc('}', drv_out);
+			firstout = 0;
+		}
+		count++;
+		/* next on this level is the sibling; descend first */
+		stack[top - 1] = n->next;
+		if (n->children) {
+			if (top == cap) stack = (const MPT_STRUCT(node) **) realloc(stack, (cap *= 2) * sizeof(*stack));
+			stack[top++] = n->children;
+		}
+	}
+	fputc(']', drv_out);
+	free(stack);
+	return count;
 }
 static void j_tree(const char *key, const MPT_STRUCT(node) *root, int *bad)
 {
@@ -134,38 +175,20 @@ static void j_tree(const char *key, const MPT_STRUCT(node) *root, int *bad)
 /* ---------- event recorder (path handler) ---------- */
 struct event {
 	int curr, prev;
-	int depth;          /* path elements */
-	uint8_t *name; size_t nlen;   /* last path element */
+	uint8_t *path; size_t plen;   /* path bytes (elements + separators, without the assign byte) */
+	int sep, elems;     /* elems: path holds at least one element */
 	uint8_t *val;  size_t vlen;
 	int hasval;
+	long reads;         /* getc calls so far */
 };
+static struct source *cur_src;
 static struct event *evs;
 static size_t nevs, capevs;
 static int refuse_at = -1;   /* handler answers an error at this event index */
 
-static int path_elements(const MPT_STRUCT(path) *p, const char **last, size_t *llen)
-{
-	/* separator form (mpt_parse_config uses sep '.', assign 0) */
-	const char *b = p->base + p->off;
-	size_t i, start = 0;
-	int cnt = 0;
-	*last = 0; *llen = 0;
-	if (!p->len) return 0;
-	for (i = 0; i < p->len; i++) {
-		if (i + 1 == p->len || b[i] == p->sep) {
-			/* last byte is the assign character */
-			*last = b + start;
-			*llen = i - start;
-			cnt++;
-			start = i + 1;
-		}
-	}
-	return cnt;
-}
 static int record(void *ctx, const MPT_STRUCT(path) *p, const MPT_STRUCT(value) *val, int prev, int curr)
 {
 	struct event *e;
-	const char *last; size_t llen;
 	int was = acct_on;
 	(void) ctx;
 	acct_on = 0;
@@ -173,8 +196,12 @@ static int record(void *ctx, const MPT_STRUCT(path) *p, const MPT_STRUCT(value) 
 	e = &evs[nevs];
 	memset(e, 0, sizeof(*e));
 	e->curr = curr; e->prev = prev;
-	e->depth = path_elements(p, &last, &llen);
-	e->name = (uint8_t *) malloc(llen + 1); memcpy(e->name, last ? last : "", llen); e->nlen = llen;
+	e->sep = (unsigned char) p->sep;
+	e->plen = p->len ? p->len - 1 : 0;      /* last byte is the assign character */
+	e->elems = p->len ? 1 : 0;
+	e->path = (uint8_t *) malloc(e->plen + 1);
+	if (e->plen) memcpy(e->path, p->base + p->off, e->plen);
+	e->reads = cur_src ? cur_src->reads : 0;
 	if (val) {
 		const struct iovec *vec = (const struct iovec *) val->_addr;
 		e->hasval = 1;
@@ -190,7 +217,7 @@ static int record(void *ctx, const MPT_STRUCT(path) *p, const MPT_STRUCT(value) 
 static void clear_events(void)
 {
 	size_t i;
-	for (i = 0; i < nevs; i++) { free(evs[i].name); free(evs[i].val); }
+	for (i = 0; i < nevs; i++) { free(evs[i].path); free(evs[i].val); }
 	nevs = 0;
 }
 static const char *evname(int curr)
@@ -285,18 +312,31 @@ static void do_parse(struct cmd *c)
 	int fmtnull, ret, bad = 0;
 	long pre = (long) drv_int(c, "pre", 0);
 	long a0, f0, a1, f1, a2, f2;
-	char *before = 0, *after = 0;
-	size_t blen = 0, alen = 0;
+	char *before = 0, *after = 0, *fbefore = 0, *fafter = 0;
+	size_t blen = 0, alen = 0, fblen = 0, falen = 0;
+	long nbefore, nafter;
 	FILE *keep = drv_out;
 
+	long m0a, m0f;
 	setup(c, &ctx, &src, &fmt, &fmtnull, &acc, &text);
+	m0a = acct_alloc; m0f = acct_free;
+	acct_on = 1;
 	if (pre > 0) add_marker(&root, "keep", "kv", "sub");
 	if (pre > 1) add_marker(&root, "a", "old", 0);
 	if (pre > 2) add_marker(&root, "zz", 0, "zc");
+	if (pre > 3) {          /* sections that share names with generated documents */
+		add_marker(&root, "b", 0, "a");
+		add_marker(&root, "a1", "o1", "b");
+		add_marker(root.children->next->next->next, "x", "ox", 0);
+	}
+	acct_on = 0;
 
 	/* target before */
 	drv_out = open_memstream(&before, &blen);
 	print_nodes(root.children, &root, 0, &bad);
+	fclose(drv_out);
+	drv_out = open_memstream(&fbefore, &fblen);
+	nbefore = flat_nodes(root.children, 2000);
 	fclose(drv_out);
 	drv_out = keep;
 
@@ -310,6 +350,9 @@ static void do_parse(struct cmd *c)
 	bad = 0;
 	print_nodes(root.children, &root, 0, &bad);
 	fclose(drv_out);
+	drv_out = open_memstream(&fafter, &falen);
+	nafter = flat_nodes(root.children, 2000);
+	fclose(drv_out);
 	drv_out = keep;
 
 	acct_on = 1;
@@ -320,12 +363,13 @@ static void do_parse(struct cmd *c)
 	drv_begin(c);
 	j_str("ret", ret < 0 ? "error" : "ok");
 	j_sep(); fprintf(drv_out, "\"tree\":%s", after);
-	j_sep(); fprintf(drv_out, "\"before\":%s", before);
+	j_sep(); fprintf(drv_out, "\"fbefore\":{\"cnt\":%ld,\"list\":%s}", nbefore, fbefore);
+	j_sep(); fprintf(drv_out, "\"ftree\":{\"cnt\":%ld,\"list\":%s}", nafter, fafter);
 	j_int("reads", src.reads);
 	j_int("past", src.past);
 	j_int("len", (long long) src.len);
 	j_int("net", (a1 - a0) - (f1 - f0));           /* live blocks added by the call */
-	j_int("netclear", (a2 - a0) - (f2 - f0));      /* ... after clearing the target */
+	j_int("netclear", (a2 - m0a) - (f2 - m0f));    /* live blocks (target included) after clearing the target */
 	j_int("links", bad);
 	drv_dbg();
 	j_int("code", ret);
@@ -333,7 +377,7 @@ static void do_parse(struct cmd *c)
 	j_int("curr", ctx.curr);
 	j_int("allocs", a1 - a0);
 	drv_end();
-	free(before); free(after);
+	free(before); free(after); free(fbefore); free(fafter);
 	free(fmt); free(acc); free(text);
 }
 
@@ -351,6 +395,7 @@ static void do_events(struct cmd *c)
 	setup(c, &ctx, &src, &fmt, &fmtnull, &acc, &text);
 	refuse_at = (int) drv_int(c, "refuse", -1);
 	clear_events();
+	cur_src = &src;
 	type = mpt_parse_format(&pfmt, fmtnull ? 0 : (const char *) fmt);
 	next = mpt_parse_next_fcn(type);
 	ctx.prev = MPT_ENUM(ParseSection);
@@ -370,9 +415,21 @@ static void do_events(struct cmd *c)
 	for (i = 0; i < nevs; i++) {
 		j_item_obj_open();
 		j_str("e", evname(evs[i].curr));
-		j_int("d", evs[i].depth);
+		j_int("r", evs[i].reads);
 		j_int("hv", evs[i].hasval);
-		j_runs("n", evs[i].name, evs[i].nlen);
+		/* path elements (split at the separator byte; copying only) */
+		j_arr_open("p");
+		if (evs[i].elems) {
+			size_t k, start = 0;
+			for (k = 0; k <= evs[i].plen; k++) {
+				if (k == evs[i].plen || evs[i].path[k] == evs[i].sep) {
+					j_sep();
+					j_runs_body(evs[i].path + start, k - start);
+					start = k + 1;
+				}
+			}
+		}
+		j_arr_close();
 		j_runs("v", evs[i].val, evs[i].vlen);
 		j_close();
 	}
